@@ -3,7 +3,7 @@
 # applies the patch to /repo's working tree, runs the check, always restores /repo.
 m=/verif/seeded/$1; chk=$2; tier=${3:-quick}
 [ -z "$(git -C /repo status --porcelain)" ] || { echo "/repo not clean"; exit 3; }
-git -C /repo apply $m/patch.diff || { echo "patch does not apply"; exit 3; }
+git -C /repo apply $m/patch.diff 2>/dev/null || { echo "$1: patch does not apply (re-diff it against the current HEAD)"; exit 3; }
 trap 'git -C /repo checkout -q -- . ' EXIT
 cd /verif && VERIF_NOEVIDENCE=1 ./check $chk --tier $tier > /tmp/wt/mut_$1_$chk.log 2>&1
 rc=$?
